@@ -49,13 +49,14 @@ def begin_case(case):
     _CASE["spell"] = dict(
         domain=str(rng.choice(["tuple", "list", "ndarray"])),
         modes=str(rng.choice(["tuple", "list", "ndarray"])),
-        meas_pt=str(rng.choice(["tuple", "list", "ndarray", "ndarray"])),
+        meas_pt=str(rng.choice(["tuple", "list", "ndarray", "ndarray", "single-typed", "single-typed array"])),
         levels=str(rng.choice(["asis", "asis", "ndarray"])),
         profiles=str(rng.choice(["tuple", "list"])),
         srf_flx=str(rng.choice(["C", "C", "F", "strided"])),
         scalars=str(rng.choice(["python", "numpy"])),
         decoys=bool(rng.random() < 0.3),
         threads=int(rng.choice([1, 1, 1, 1, 1, 1, 1, 1, 2, 3])),
+        flags=str(rng.choice(["bool", "bool", "numpy", "int"])),
     )
     # the process-wide thread setting of the solver: 20 % of the cases run the multi-thread kernel (2 or 3 threads); checks that
     # manage the setting themselves (C12, C14) overwrite it
@@ -85,6 +86,14 @@ def _spell(kw):
         if name in kw and kw[name] is not None and sp[name] != "tuple":
             vals = tuple(kw[name])
             isint = name == "modes"
+            if sp[name].startswith("single-typed"):
+                # coordinates from a station table kept in single precision: only where the numbers are exactly float32 numbers, so the
+                # request is the same request (NumPy 2 keeps float32 through scalar arithmetic with Python floats)
+                if all(float(np.float32(v)) == float(v) for v in vals):
+                    f32 = tuple(np.float32(v) for v in vals)
+                    kw[name] = f32 if sp[name] == "single-typed" else _memo((name, "f32", vals), lambda: np.array(f32, dtype=np.float32))
+                    purity._count("measurement_point_given_as_float32")
+                continue
             if sp[name] == "list":
                 kw[name] = list(vals)
             else:
@@ -102,6 +111,12 @@ def _spell(kw):
             big = np.full((q.shape[0] * 2, q.shape[1] * 2 + 1), np.nan)
             big[::2, 1::2] = q
             kw["srf_flx"] = big[::2, 1::2]
+    if sp.get("flags", "bool") != "bool":
+        # switches the way a caller may hold them: the result of a numpy comparison (numpy.bool_) or 0 / 1
+        for name in ("footprint", "analytic"):
+            if isinstance(kw.get(name), bool):
+                kw[name] = np.bool_(kw[name]) if sp["flags"] == "numpy" else int(kw[name])
+        purity._count(f"switches_given_as:{sp['flags']}")
     if sp["scalars"] == "numpy":
         for name in ("halo", "srf_bg_conc"):
             if isinstance(kw.get(name), float):
